@@ -1,7 +1,7 @@
 (* C02 — Results are in RFC 9535 document order, duplicates preserved.  Statements only. *)
 From Coq Require Import List NArith ZArith Bool Permutation.
 From JP Require Import Base Ast Eval ValueModel Spec Known WellFormed Regex Entry DataFacts SelFacts
-  Refine Order SpecFacts RegexFacts.
+  Refine Order SpecFacts RegexFacts Build Purity FragParse FragBuild StringLevel.
 Import ListNotations.
 
 (* the full statement (false of the code today: D1) *)
@@ -53,6 +53,28 @@ Theorem C02_descendants_preorder_obj : forall loc m,
   descendants_or_self loc (JObj m)
   = (loc, JObj m) :: flat_map (fun '(k, v) => descendants_or_self (loc ++ [SName k]) v) m.
 Proof. exact desc_obj'. Qed.
+
+
+(* string level, end to end, where the code and RFC 9535 agree exactly (one input node): the TEXT `$[s1,...,sn]`
+   -- names, wildcards, indices and slices in any mixture -- goes through the generated grammar, parser.rs and
+   the evaluator (Data::reduce of state.rs merges the selectors' results) and returns the nodes of s1, then those
+   of s2, and so on: list equality, so order and duplicates are exactly those the RFC prescribes *)
+Theorem C02_string_level_union : forall s l (d : json),
+  sel_ok s -> Forall sel_ok l -> sel_range s -> Forall sel_range l -> wf_json d = true ->
+  exists ps,
+    api_with_path (36%N :: bracket_text s l) d = Some (map (fun p => (inner p, path p)) ps)
+    /\ map node_of ps = flat_map (fun x => plain_sel_nodes x ([], d)) (s :: l).
+Proof. exact union_string_level. Qed.
+Print Assumptions C02_string_level_union.
+
+(* $[1,0:2,-1,*] on [10,20,30]: 20, 10, 20, 30, 10, 20, 30 *)
+Example C02_string_level_example :
+  let d := JArr [JNum (NInt 10); JNum (NInt 20); JNum (NInt 30)] in
+  let s := FIndex 1%Z in let l := [FSlice (Some 0%Z) (Some 2%Z) None; FIndex (-1)%Z; FWild] in
+  bracket_text s l = [91; 49; 44; 48; 58; 50; 44; 45; 49; 44; 42; 93]%N
+  /\ option_map (map snd) (api_with_path (36%N :: bracket_text s l) d)
+     = Some [[36;91;49;93]; [36;91;48;93]; [36;91;49;93]; [36;91;50;93]; [36;91;48;93]; [36;91;49;93]; [36;91;50;93]]%N.
+Proof. vm_compute. split; reflexivity. Qed.
 
 (* witness of the known finding D1: $[*][0,1] on [[1,2],[3,4]] *)
 Definition d1_query : query :=
